@@ -508,6 +508,12 @@ def run_one(lab: Lab, wf: Wf, prefix: list[str], ops: list[dict], snap, meta, re
             stq[t] = stq.get(t, 0) + 1
     if any(v > 1 for v in stq.values()):
         violations.append(("StartTask pushed more than once for one task", "starttask-twice"))
+    # every stage of these workflows has exactly one task: a second task row / a StartTask for a second task id means it was planned twice
+    for ref in sorted(env.ids):
+        nrows = env.stage_row(ref)["ntasks"]
+        nst = len({t for c, r, t, rc in ql if c == "ST" and r == ref})
+        if nrows > 1 or nst > 1:
+            violations.append((f"stage {ref} was planned more than once: {nrows} task rows, StartTask pushed for {nst} different tasks", f"planned-twice:{ref}"))
     ssj = sum(1 for c, r, t, rc in ql if c == "SS" and r == "j" and rc == 0)
     ssd = sum(1 for c, r, t, rc in ql if c == "SS" and r == "d" and rc == 0)
     if ssj > wf.n:
@@ -892,7 +898,7 @@ def alt_config(seed: int, thorough: bool) -> dict:
     ss = "SS(j)>SS(j)"
     mixed = [f"SS(j)>CS(u{i})" for i in (1, 2, 3)] + [f"CS(u{i})>SS(j)" for i in (1, 2, 3)]
     if thorough:
-        by = {ss: {"p2": None, "p3a": None, "p3b_kj": 24, "p3b_m": 4}}
+        by = {ss: {"p2": None, "p3a": None, "p3b_kj": 12, "p3b_m": 3}}
         by.update({k: {"p2": None, "p3a": 12, "p3b_kj": 6, "p3b_m": 2} for k in mixed})
     else:
         by = {ss: {"p2": 8, "p3a": 2, "p3b_kj": 2, "p3b_m": 2}}
